@@ -476,7 +476,8 @@ fn rand_boundary(rng: &mut Prng) -> Vec<u8> {
                 for b in t.bytes() {
                     if b == b'~' {
                         if rng.chance(2, 3) {
-                            d.extend_from_slice(rng.pick(WS_BYTES));
+                            let w: &[u8] = *rng.pick(WS_BYTES);
+                            d.extend_from_slice(w);
                         }
                     } else {
                         d.push(b);
@@ -526,6 +527,100 @@ fn rand_boundary(rng: &mut Prng) -> Vec<u8> {
     }
 }
 
+// ---------------------------------------------------------------------------------------------
+// diff-directed hints (env VERIF_HINTS, see notes/BUILDER_GUIDE.md): emitted FIRST when present
+
+/// the byte strings to inject: every hinted string, its upper- and lower-cased forms, and every hinted number < 256 as one byte
+fn hint_strings(h: &Hints) -> Vec<Vec<u8>> {
+    let mut out: Vec<Vec<u8>> = Vec::new();
+    let mut add = |b: Vec<u8>| {
+        if !b.is_empty() && b.len() <= 64 && !out.contains(&b) {
+            out.push(b);
+        }
+    };
+    for s in &h.strs {
+        add(s.as_bytes().to_vec());
+        add(s.to_uppercase().into_bytes());
+        add(s.to_lowercase().into_bytes());
+    }
+    for n in &h.nums {
+        if *n < 256 {
+            add(vec![*n as u8]);
+        }
+    }
+    out
+}
+
+fn subst(template: &str, w: &[u8]) -> Vec<u8> {
+    let mut d = Vec::new();
+    for b in template.bytes() {
+        if b == b'~' {
+            d.extend_from_slice(w);
+        } else {
+            d.push(b);
+        }
+    }
+    d
+}
+
+fn hint_cases(h: &Hints, emit: &mut dyn FnMut(Value)) {
+    let mut case = |bytes: Vec<u8>, emit: &mut dyn FnMut(Value)| emit(json!({"bytes": hex(&bytes), "family": "hint"}));
+    // sizes: numbers of attributes, token lengths, nesting depths, numbers of tokens, distance of EOF from a construct
+    for n in h.sizes(70_001) {
+        if n <= 5000 {
+            for style in [6usize, 0, 1, 2, 3] {
+                case(many_attrs_doc(n, style, style == 2), emit);
+            }
+            case(nest_doc(n), emit);
+            case(b"<p>".repeat(n), emit);
+            case(b"<br/>x".repeat(n), emit);
+            case([b"<a".to_vec(), b" ".repeat(n), b"b".to_vec(), b"\n".repeat(n), b"=".to_vec(), b"\t".repeat(n), b"c>".to_vec()].concat(), emit);
+        }
+        case(long_doc(n), emit);
+        // EOF `n` bytes after the start of a construct (and one construct of every kind exactly n bytes long)
+        const OPEN: &[&str] = &[
+            "", "<", "</", "<a ", "<a b=", "<a b=\"", "<a b='", "<!--", "<!", "<!DOCTYPE ", "<![CDATA[", "<?", "<script>", "<script><!--", "<script><!--<script>", "<title>",
+            "<textarea>", "<style>", "<plaintext>", "<script></", "<title></",
+        ];
+        for o in OPEN {
+            let mut d = o.as_bytes().to_vec();
+            letters(n, 3, &mut d);
+            case(d.clone(), emit);
+            if n >= o.len() && !o.is_empty() {
+                // the whole input is n bytes
+                let mut e = o.as_bytes().to_vec();
+                letters(n - o.len(), 5, &mut e);
+                case(e, emit);
+            }
+        }
+        for (o, c) in [("<", ">"), ("</", ">"), ("<a b=\"", "\">"), ("<!--", "-->"), ("<!DOCTYPE ", ">"), ("<![CDATA[", "]]>"), ("<script>", "</script>"), ("<title>", "</title>")] {
+            // the token's raw span is exactly n bytes
+            if n >= o.len() + c.len() {
+                let mut d = o.as_bytes().to_vec();
+                letters(n - o.len() - c.len(), 7, &mut d);
+                d.extend_from_slice(c.as_bytes());
+                d.extend_from_slice(b"<i>z");
+                case(d, emit);
+            }
+        }
+    }
+    // strings / bytes: as white space and delimiter, inside names, keys, values, text, after `</`, in script and raw text, at EOF
+    for w in hint_strings(h) {
+        case(ws_doc(&w), emit);
+        const INJECT: &[&str] = &[
+            "<a~b ~k~=~v~ x=\"~\" y='~' z=~>t~t</a~></~><~><!--~--><!~><!DOCTYPE~html~><title>~</title><script>~</script><script><!--~<script>~</script>~--></script><style>~</style~>~",
+            "<~", "<a~", "<a ~", "<a b~", "<a b=~", "<a b=\"~", "<a b='~", "<a b=c~", "</~", "</a~", "</a ~", "<!--~", "<!--x-~", "<!--x--~", "<!~", "<!DOCTYPE~", "<!DOCTYPE ~", "<![CDATA[~", "<![CDATA[x]~",
+            "<?~", "<script>~", "<script><~", "<script></~", "<script></script~", "<script><!--~", "<script><!--<script~", "<script><!--<script>~", "<script><!--<script></script~", "<title>~",
+            "<title></~", "<title></title~", "<title></titl~", "<textarea>~", "<plaintext>~", "x~", "~", "~<a>", "<~>", "<a~>", "<a~/>", "<a/~>", "<a b~>", "<a b=c~>", "<a b=c~/>", "<a b=\"c\"~>", "<a b=\"c\"~d>",
+            "</a~>x", "<title>x</title~>y</title>", "<script>x</script~>y</script>", "<script~>x</script>", "<scr~ipt>x</script>", "<script>x</scr~ipt>", "<ti~tle>x</title><a>", "<~script>x", "<!DOC~TYPE html>",
+            "<!--~>", "<!--~->", "<!--~-->", "<!--x~-->", "<!--x-~->", "<!--x--~>", "<!--x--!~>", "<![CDATA[~]]>", "<![CDATA[x]~]>", "<![CDATA[x]]~>",
+        ];
+        for t in INJECT {
+            case(subst(t, &w), emit);
+        }
+    }
+}
+
 /// context prefixes for the exhaustive suffix enumeration
 const CONTEXTS: &[&str] = &[
     "", "<script>", "<script><!--", "<script><!--<script>", "<script><!--<script", "<title>", "<textarea>", "<style>", "<plaintext>", "<!--", "<![CDATA[",
@@ -534,7 +629,12 @@ const CONTEXTS: &[&str] = &[
 
 fn gen(args: &Args, emit: &mut dyn FnMut(Value)) {
     let mut rng = Prng::new(args.seed);
-    // the deterministic boundary families come first, in every tier
+    // diff-directed cases first (only when ./check saw a source change), then the deterministic boundary families, in every tier
+    let hs = hints();
+    if !hs.is_empty() {
+        hint_cases(&hs, emit);
+    }
+    let hstrs = hint_strings(&hs);
     boundary_cases(emit);
     if args.tier == "thorough" {
         // exhaustive small scopes, in blocks; sizes via gen_args: --exh-len L (all strings of length <= L),
@@ -585,6 +685,28 @@ fn gen(args: &Args, emit: &mut dyn FnMut(Value)) {
         // 1 in 25: a random member of the boundary families
         if i % 25 == 24 {
             emit(json!({"bytes": hex(&rand_boundary(&mut rng)), "family": "boundary-random"}));
+            continue;
+        }
+        // with hints: 1 in 5 is a grammar document with hinted strings spliced in or used instead of white space
+        if !hstrs.is_empty() && i % 5 == 3 {
+            let mut d = gen_doc(&mut rng);
+            let k = rng.range(1, 3);
+            for _ in 0..k {
+                let w = rng.pick(&hstrs).clone();
+                let ws: Vec<usize> = (0..d.len()).filter(|&j| matches!(d[j], b' ' | b'\n' | b'\t' | b'>' | b'/' | b'=')).collect();
+                if !ws.is_empty() && rng.chance(1, 2) {
+                    let at = *rng.pick(&ws);
+                    if rng.chance(1, 2) {
+                        d.splice(at..at + 1, w);
+                    } else {
+                        d.splice(at..at, w);
+                    }
+                } else {
+                    let at = rng.below(d.len() + 1);
+                    d.splice(at..at, w);
+                }
+            }
+            emit(json!({"bytes": hex(&d), "family": "hint-random"}));
             continue;
         }
         let bytes: Vec<u8> = match i % 10 {
